@@ -272,10 +272,12 @@ class ParallelArchipelago(Archipelago):
         all_par_archs = self.comm.gather(pickleable_copy, root=0)
 
         if self.comm_rank == 0:
-            with open(filename, "wb") as dump_file:
+            temp_filename = f"{filename}.tmp"
+            with open(temp_filename, "wb") as dump_file:
                 dill.dump(
                     all_par_archs, dump_file, protocol=dill.HIGHEST_PROTOCOL
                 )
+            os.replace(temp_filename, filename)
             LOGGER.log(DETAILED_INFO, "Saved successfully")
 
     def _copy_without_mpi(self):
